@@ -1,11 +1,11 @@
 """Framework rules: C01, C04, C05, C06, C08, C09, C10."""
 from .core import AnchorMissing, strip_sites, walk, show, callee_str, callee_decl, decl_matches, callee_key, is_param_call
-from .paths import stores, calls, field_stores
+from .paths import mut_ref_args, stores, calls, field_stores
 from .pat import (num, is_const, unload, last_field, is_field, strip_casts, is_call, has_cmp, cmp_int_true,
                   all_paths, show_facts, field_chain, root_of, contains, base_of, find_calls)
 from .tables import aggregates, unwrap, src_field, src_base
 from .inline import expand_calls
-from .rules_limits import (FW, fw_fns, ret_defs, is_false_const, is_true_const, shape, is_range_loop_var,
+from .rules_limits import (FW, loop_iter_source, pair_components, uc_components, fw_fns, ret_defs, is_false_const, is_true_const, shape, is_range_loop_var,
                            next_state_payload, count_between, min_max_on_paths, switch_conditions, event_arms)
 
 
@@ -489,11 +489,13 @@ def check_C08(ctx, rep):
         if callee_str(f).endswith('::update_counter'):
             rep.ob('C08.R5', tr, 'update_counter-own-machine', a[1] == ('param', 2), '')
     rets = ret_defs(fa)
+    akey, ckey = uc_components(ctx)
     for (b, k_, v) in rets:
-        if v[0] != 'tuple':
+        comp = pair_components(v)
+        if comp is None or akey not in comp or ckey not in comp:
             rep.ob('C08.R5', fn, 'return-shape', False, shape(v))
             continue
-        e0, e1 = v[2][0], v[2][1]
+        e0, e1 = comp[akey], comp[ckey]
         after_rec = any(fa.cfg.dominates(rb, b) for (rb, f, a, t) in rec_calls)
         if after_rec:
             ok0 = is_call(e0, 'is_none') and contains(e0, lambda x: isinstance(x, tuple) and x and x[0] == 'idx' and x[2] == ('param', 2) and is_field(x[1], 'actions', 'Framework'))
@@ -550,6 +552,79 @@ def signal_calls(prog, an):
     return out
 
 
+def filter_excludes_only(ctx, clo):
+    """closure value `clo` = |&mi| excluded != Some(mi) where the captured `excluded` is
+    None | Some((taken signal as AllExcept).0)"""
+    prog, an = ctx.prog, ctx.an
+    cfn = prog.fns.get(clo[1])
+    if cfn is None or not cfn.has_body or len(clo[2]) != 1:
+        return False
+    ca = an.get(cfn)
+    rets = [v for (b, k, v) in ret_defs(ca)]
+    if len(rets) != 1:
+        return False
+    r = rets[0]
+    neg = False
+    if r[0] == 'un' and r[1] == 'Not':
+        neg, r = True, r[2]
+    if not (r[0] == 'call' and len(r[2]) == 2):
+        return False
+    if is_call(r, 'PartialEq::ne') and not neg:
+        pass
+    elif is_call(r, 'PartialEq::eq') and neg:
+        pass
+    else:
+        return False
+
+    def is_cap(x):
+        x = unload(x)
+        while x[0] in ('refv', 'ref', 'deref'):
+            x = unload(x[1])
+        return x[0] == 'fld' and x[3] == '0' and unload(x[1]) in (('param', 1), ('deref', ('param', 1)))
+
+    def is_some_arg(x):
+        x = unload(x)
+        while x[0] in ('refv', 'ref'):
+            x = unload(x[1])
+        if not (x[0] == 'agg' and x[2] == 'Some' and x[1].endswith('option::Option')):
+            return False
+        y = unload(dict(x[3]).get('0'))
+        while y[0] in ('deref', 'load'):
+            y = unload(y[1])
+        return y == ('param', 2)
+    a, b = r[2]
+    if not ((is_cap(a) and is_some_arg(b)) or (is_cap(b) and is_some_arg(a))):
+        return False
+    # the captured value
+    cap = clo[2][0]
+    fa = None
+    for f in prog.fns.values():
+        if f.key == cfn.parent or cfn.parent in getattr(f, 'inlined', ()):
+            fa = an.get(f)
+    if fa is None:
+        return False
+    if cap[0] == 'ref' and cap[1][0] == 'local':
+        vals = [fa.def_value(cap[1][1], b_, k_) for (b_, k_, part) in fa.defs().get(cap[1][1], []) if not part]
+    else:
+        vals = [cap]
+    alts = []
+    for v in vals:
+        alts += list(v[1]) if v[0] == 'phi' else [v]
+    if not alts:
+        return False
+    some = 0
+    for a_ in alts:
+        if a_[0] == 'agg' and a_[2] == 'None':
+            continue
+        if a_[0] == 'agg' and a_[2] == 'Some':
+            pl = dict(a_[3]).get('0')
+            if contains(pl, lambda x: isinstance(x, tuple) and x and x[0] == 'var' and x[2] == 'AllExcept') and contains(pl, lambda x: is_call(x, 'Option::<T>::take')):
+                some += 1
+                continue
+        return False
+    return some == 1
+
+
 def check_C09(ctx, rep):
     prog, an = ctx.prog, ctx.an
     F = fw_fns(prog)
@@ -570,8 +645,13 @@ def check_C09(ctx, rep):
                 continue
             rep.ob('C09.R1', fn, 'writer:signal_pending', name == 'transition', 'stored in %s' % name)
         for (b, f, args, t) in calls(fa):
-            for a in args:
+            mut_idx = {i for (i, pe_, v_) in mut_ref_args(fa, t, (b, len(fa.blocks[b]['s'])))}
+            for ai, a in enumerate(args):
+                if a[0] == 'optref' and is_field(a[1], 'signal_pending', 'Framework'):
+                    continue  # Option<&T> view: read only
                 if a[0] == 'ref' and is_field(a[1], 'signal_pending', 'Framework'):
+                    if ai not in mut_idx:
+                        continue  # shared borrow: cannot write
                     ok = name in ('trigger_events', 'transition') and callee_str(f).endswith('Option::<T>::take')
                     if callee_str(f).endswith('fmt') or fn.derived:
                         continue
@@ -710,6 +790,13 @@ def check_C09(ctx, rep):
         body = loops[h]
         mi = fr[3][1]
         ok_lv = is_range_loop_var(ta, mi)
+        src = loop_iter_source(ta, mi)
+        filt_ok = None
+        if src is not None and src[0] == 'filter':
+            # `for mi in (0..n).filter(|&mi| excluded != Some(mi))`: the predicate must be exactly
+            # "mi is not the excluded index" with excluded = None | Some(AllExcept payload of the taken signal)
+            ok_lv = src[2][0] == 'agg' and src[2][1].endswith('range::Range')
+            filt_ok = filter_excludes_only(ctx, src[1])
         rng_ok = False
         if ok_lv:
             nx = unload(unload(mi)[1][1])  # the next() call
@@ -738,6 +825,8 @@ def check_C09(ctx, rep):
                 if not (called or excl):
                     ok_iter = False
                     wit = S
+        if filt_ok is not None:
+            rep.ob('C09.R3', te, 'filter-predicate-is-not-the-excluded-index', filt_ok, 'closure %s' % src[1][1])
         rep.ob('C09.R3', te, 'every-non-excluded-machine-signalled', ok_iter, '' if ok_iter else 'iteration path without Signal: ' + show_facts(wit))
         # excluded table
         def excluded_payload(e):
@@ -1226,6 +1315,10 @@ def check_C05(ctx, rep):
             cs = callee_str(f)
             if any(cs.endswith(x) for x in bad_adapt) and 'Option' not in cs and name not in ():
                 if name == 'trigger_events' and cs.endswith('filter_map'):
+                    continue
+                if cs.endswith('::filter') and not contains(args[0], lambda x: x == ('param', 2)):
+                    # order preserving, and not applied to the events: which machines a filtered machine loop
+                    # may skip is the business of the rules of the loop's own property (C09.R3)
                     continue
                 rep.ob('C05.R3', fn, 'iterator-adaptor:' + cs.split('::')[-1], 'Option' in cs, '%s in %s' % (cs, name))
     # internal events raised by direct calls
